@@ -74,8 +74,10 @@ BuiltOK(e) ==
     \/ Known(e)
 
 FrameOK(e) ==
-    \* Send accepts exactly the sizes 1..max
-    /\ (e.send = "ok") <=> T!SendOK(e.size)
+    \* Send accepts only the sizes 1..max, and accepts every such frame the receiver is willing to read
+    \* (a receiver that refuses an over-limit header stops reading: the sender of such a frame may time out)
+    /\ (e.send = "ok" => T!SendOK(e.size))
+    /\ (T!SendOK(e.size) /\ T!RecvOK(e.size, e.limit) => e.send = "ok")
     /\ e.send # "panic"
     \* what was sent within the receiver's limit arrives, byte for byte; beyond the limit it is refused
     /\ (e.send = "ok" /\ T!RecvOK(e.size, e.limit) => e.recv = "ok" /\ e.recv_size = e.size /\ e.same)
